@@ -68,10 +68,13 @@ def file_entries(case: Dict[str, Any], rank: int) -> List[Dict[str, Any]]:
     Recorded so that TLC can tell a wrong loader (rows that no longer say what the file said: a violation) from an input outside the
     property's domain (a generator bug)."""
     rt = next(r for r in case["ranks"] if r["rank"] == rank)
+    u = int(case.get("u", 1))
     out = []
     for i, e in enumerate(rt["events"]):
         if hta.is_complete(e):
             a = e.get("args") or {}
             st = hta._int_stream(a.get("stream", -1))
-            out.append({"id": i, "name": e["name"], "cat": e["cat"], "stream": -1 if st >= 2 ** 31 else st, "corr": int(a.get("correlation", -1))})
+            out.append({"id": i, "name": e["name"], "cat": e["cat"], "stream": -1 if st >= 2 ** 31 else st, "corr": int(a.get("correlation", -1)),
+                        "dur": hta.ival(float(e["dur"]) * u)})       # ticks; these generators write whole-microsecond start times, so the
+                                                                       # loader rounds nothing and durations arrive unchanged
     return out
